@@ -13,7 +13,8 @@ CONSTANTS MaxVars, MaxTimes
 \* universe of variable paths (no path a prefix of another)
 LeafPaths == {<<"a">>, <<"b">>, <<"c", "a">>, <<"c", "b">>}
 \* paths that may be queried: leaves, a branch, a missing path
-QueryPaths == {<<"a">>, <<"c">>, <<"c", "b">>, <<"z">>}
+\* (<<"a", "z">>: below a leaf when "a" is a variable - nothing is there)
+QueryPaths == {<<"a">>, <<"c">>, <<"c", "b">>, <<"z">>, <<"a", "z">>}
 
 \* (None: a value like any other once it has been emitted)
 Plain == {"Zero", "False", "EmptyStr", "EmptyList", "One", "None"}
